@@ -163,7 +163,7 @@ U("c15_deindent_line", ["C15", "C01"], "h_deindent", ["C15/deindent.c"], ["mmd.c
 # ---- standalone superscript / subscript: the marker is stretched over the word, the covered tokens pruned, the next one cut
 for _ty, _st in (("SUPERSCRIPT", 0), ("SUBSCRIPT", 0)):
     U("c15_standalone_%s_at%d" % (_ty.lower(), _st), ["C15", "C16", "C01"], "h_ambi_sup", ["C15/ambi_sup.c"], ["mmd.c", "char.c"], plain=True, lib=(), kind="bounded",
-      defines=["-DNSRC=5", "-DNT=3", "-DSTART=%d" % _st, "-DTOKTYPE=" + _ty], bounds={"source bytes<=": 5, "marker position": _st, "following tokens<=": 3, "unwind": 9},
+      defines=["-DNSRC=5", "-DNT=3", "-DSTART=%d" % _st, "-DKIND_PLAIN", "-DTOKTYPE=" + _ty], bounds={"following token kinds": "TEXT_PLAIN", "source bytes<=": 5, "marker position": _st, "following tokens<=": 3, "unwind": 9},
       cbmc_flags=["--unwind", "8", "--unwindset", "mmd_assign_ambidextrous_tokens_in_block.14:6", "--unwinding-assertions"], timeout=600, cost=40,   # .14 = the outer while (t != NULL) over the chain (4 tokens)
       functions=["mmd_assign_ambidextrous_tokens_in_block (SUPERSCRIPT/SUBSCRIPT arm)"], callees={"char_is_*": "body (real table)", "tokens_prune, token_new": "contract stubs (the range leaves the chain; a fresh token with the given span)"},
       native=None, min_obligations=20, assumptions=[NOFAIL, "the chain is contiguous, non-empty tokens inside the NUL-terminated source (lexer contract, assumed)"])
